@@ -55,6 +55,11 @@ def pe_remaining_lemma():
         z3.Select(c, p) <= k), patterns=[z3.MultiPattern(z3.Select(PE(c, n), k), z3.Select(PE(c, p), k))])
 
 
+NUMERIC = z3.Function("numeric_valued_family", INT, BOOL)
+VADD = z3.Function("vadd", INT, INT, INT)
+VMUL = z3.Function("vmul", INT, INT, INT)
+VSUB = z3.Function("vsub", INT, INT, INT)
+VLOOK = z3.Function("vlookup", INT, INT, KS, INT)      # (key list, value list, key) -> value
 REPK = z3.Function("representable_key", INT, BOOL)
 REPV = z3.Function("representable_value", INT, BOOL)
 
@@ -410,6 +415,25 @@ class SpecMixin:
             return mk_int(self.hget(st, "$it_pos", args[0].z))
         if f == "it_pairs":
             return mk_bool(self.hget(st, "$it_pairs", args[0].z))
+        if f == "numeric":     # operand of a numeric-valued family (MERGE* attached)
+            return mk_bool(NUMERIC(args[0].z))
+        if f == "one":         # the family's multiplication identity (1 / 1.0)
+            return SV("V", z3.Int("C_ONE"))
+        if f == "vlookup":     # value stored with key k in the parallel sequences (keys, values)
+            return SV("V", VLOOK(args[0].z, args[1].z, args[2].z))
+        if f == "vlookup_def":
+            # definition of vlookup for one pair of parallel sequences; conservative
+            # because the key sequence is strictly ascending (hence injective)
+            ks, vs = args
+            j = fresh("j", INT)
+            ck, cv = self.lcontent(st, ks.z, "K"), self.lcontent(st, vs.z, "V")
+            if self.ground is None:
+                return mk_bool(z3.ForAll([j], z3.Implies(z3.And(0 <= j, j < self.llen(st, ks.z)),
+                                                         VLOOK(ks.z, vs.z, z3.Select(ck, j)) == z3.Select(cv, j)),
+                                         patterns=[z3.Select(ck, j)]))
+            return mk_bool(z3.And(*[z3.Implies(jj < self.llen(st, ks.z),
+                                               VLOOK(ks.z, vs.z, z3.Select(ck, jj)) == z3.Select(cv, jj))
+                                    for jj in range(self.ground + 1)]))
         if f == "is_tuple":    # the sequence object is a Python tuple
             return mk_bool(self.hget(st, "$istuple", args[0].z)) if args[0].kind == "list" \
                 else mk_bool(args[0].kind == "tuple")
